@@ -40,8 +40,8 @@ var c07Dims = []struct {
 	{"msg", []string{"null", "scalar", "deep", "none", "string-with-question-mark"}},
 	{"ctl", []string{"nil", "limit-zero", "limit-negative", "breakpoint", "nil-breakpoints-huge-limit"}},
 	{"props", []string{"nil", "nested"}},
-	{"act", []string{"throw", "spin", "retnull", "retscalar", "retarray", "emitbad-nan", "emitbad-func", "emitbad-cycle", "setbad", "setcycle", "getter-throw", "getter-loop", "nerrpartial", "nnilexec", "nnilbs", "nnoevents", "emit-throw", "none", "misuse-0", "misuse-1", "misuse-2", "misuse-3", "misuse-4", "misuse-5", "misuse-6", "misuse-7", "misuse-8", "misuse-9"}},
-	{"guard", []string{"throw", "spin", "retnull", "retscalar", "retarray", "emitbad-nan", "emitbad-cycle", "getter-throw", "nerrpartial", "nnilexec", "nnilbs", "nnoevents", "none", "misuse-0", "misuse-1", "misuse-3", "misuse-5", "misuse-8"}},
+	{"act", []string{"throw", "spin", "retnull", "retscalar", "retarray", "emitbad-nan", "emitbad-func", "emitbad-cycle", "setbad", "setcycle", "getter-throw", "getter-loop", "nerrpartial", "nnilexec", "nnilbs", "nnoevents", "emit-throw", "none", "throw-object", "throw-error", "throw-null", "throw-undefined", "throw-number", "throw-hostile-tostring", "throw-hostile-message", "misuse-0", "misuse-1", "misuse-2", "misuse-3", "misuse-4", "misuse-5", "misuse-6", "misuse-7", "misuse-8", "misuse-9"}},
+	{"guard", []string{"throw", "spin", "retnull", "retscalar", "retarray", "emitbad-nan", "emitbad-cycle", "getter-throw", "nerrpartial", "nnilexec", "nnilbs", "nnoevents", "none", "throw-object", "throw-error", "throw-null", "throw-undefined", "throw-number", "throw-hostile-tostring", "throw-hostile-message", "misuse-0", "misuse-1", "misuse-3", "misuse-5", "misuse-8"}},
 	{"err", []string{"aeb", "aen", "aen-missing-node"}},
 }
 
@@ -124,6 +124,9 @@ func behaviour(name string, native bool, guard bool) (*actlang.Prog, bool) {
 		return prog(true, Op{K: actlang.NativeNilExec}), native
 	case "nnilbs":
 		return prog(true, Op{K: actlang.NativeNilBs}), native
+	}
+	if strings.HasPrefix(name, "throw-") {
+		return prog(native, Op{K: actlang.Emit, V: "lost"}, Op{K: actlang.ThrowVal, A: name[len("throw-"):]}), true
 	}
 	if strings.HasPrefix(name, "misuse-") {
 		i, _ := strconv.Atoi(name[len("misuse-"):])
